@@ -188,7 +188,7 @@ def e2e_molecule_indels(args):
                 continue
             c = ln.rstrip("\n").split("\t")
             out["rows"] += 1
-            if int(c[8]) != 1 or "," in c[4]:
+            if (len(c) > 8 and int(c[8]) != 1) or "," in c[4]:      # a row without a Count column is judged as an un-merged call
                 continue
             q = int(c[4])
             if q not in jrec or q not in qmap:
@@ -263,7 +263,7 @@ def run(ctx: Ctx):
             wif.write_indel_file(found, "x.xmap", file_name=path)      # the same finder result written a second time
         rows = [ln.rstrip("\n").split("\t") for ln in open(path) if not ln.startswith("#")]
         for typ, calls in (("insertion", ins), ("deletion", dele)):
-            obs = observe_clusters([[r[0], r[1], r[2], r[3], r[4], r[5], r[6], r[7], r[8]] for r in rows if r[0] == typ])
+            obs = observe_clusters([list(r) for r in rows if r and r[0] == typ])      # a row without Count: count -1
             calls_sorted = sorted(calls, key=lambda c: (c["chr"], c["re"]))
             records.append({"kind": "cluster", "calls": calls_sorted,
                             "obs": sorted(obs, key=lambda o: (o["chr"], o["re"])) if False else obs, "via": "file"})
